@@ -1,10 +1,108 @@
 package main
 
-import "fmt"
+import (
+	"fmt"
+	"os"
+	"path/filepath"
+	"sort"
+	"strings"
 
-// selfTest runs the engines on the fixtures under checker/testdata (positive
-// examples that must match on every build). Extended as engines are added.
+	"verif/checker/core"
+)
+
+// selfTest runs every engine on the fixture module checker/testdata/fixrepo:
+// each bad* function must be reported, each good* function must not. It is part
+// of MANIFEST.setup_cmd, so an engine that silently stopped matching makes the
+// setup fail instead of letting every check pass vacuously.
 func selfTest() int {
-	fmt.Println("selftest: ok")
+	fix := filepath.Join(core.VerifDir(), "checker", "testdata", "fixrepo")
+	if _, err := os.Stat(fix); err != nil {
+		fmt.Println("selftest: fixture module missing:", err)
+		return 1
+	}
+	os.Setenv("VERIF_REPO", fix)
+	evdir, _ := os.MkdirTemp("", "verifself")
+	defer os.RemoveAll(evdir)
+	p, err := core.Load(core.LoadOpts{Patterns: []string{"./fx"}})
+	if err != nil {
+		fmt.Println("selftest: load:", err)
+		return 1
+	}
+	r := core.NewReport("SELFTEST", "quick")
+	write := core.CallTo("os.File.Write")
+	sync := core.CallTo("os.File.Sync")
+	for _, name := range []string{"goodWrite", "badWriteNoSync", "goodWriteViaHelper"} {
+		f := r.Need(p, "fx", name)
+		core.RuleMustPass(r, f, "must-sync", "Sync", sync, false)
+	}
+	for _, name := range []string{"goodWrite", "badWriteDropsError"} {
+		f := r.Need(p, "fx", name)
+		core.RuleErrorsUsed(r, f, "errors-used", "write/sync", core.Or(write, sync), false, 2)
+	}
+	core.RuleLocks(r, p, &core.LockRules{Pkg: "fx", Guards: []core.Guard{{Type: "box", Fields: []string{"n", "m"}, Locks: []string{"mu"}}}}, "guarded-by", 8)
+	pk := p.Pkg("fx")
+	mField := core.LookupField(pk.Types, "box", "m")
+	core.RuleRecheckUnderLock(r, r.Need(p, "fx", "box.goodGetOrCreate"), "recheck", mField)
+	core.RuleRecheckUnderLock(r, r.Need(p, "fx", "box.badGetOrCreate"), "recheck", mField)
+	core.RuleSiblings(r, p, "fx", "sib.gen.go", nil, 1)
+	core.RuleLockstep(r, p, "fx", "sib.gen.go", "Timestamps", "Values", 3)
+	// decision table: a permission grants only with equal action and (no org or same org)
+	for _, name := range []string{"matchGood", "matchBad"} {
+		f := r.Need(p, "fx", name)
+		doms := []core.DDomain{}
+		for _, root := range []string{"G", "R"} {
+			doms = append(doms, core.DDomain{Path: root + ".action", Values: []string{"r", "w"}},
+				core.DDomain{Path: root + ".org", Values: []string{"nil", "ptr"}},
+				core.DDomain{Path: "*" + root + ".org", Values: []string{"1", "2"}})
+		}
+		bad := 0
+		core.EnumModels(doms, func(m core.DModel) {
+			res, und := core.EvalOn(p, f, m, []core.DVal{core.Path("G"), core.Path("R")}, nil, nil)
+			want := m["G.action"] == m["R.action"] && (m["G.org"] == "nil" || (m["R.org"] == "ptr" && m["*G.org"] == m["*R.org"]))
+			if und != "" || res.Panicked || (res.Value == "true" && !want) {
+				bad++
+			}
+		})
+		r.Check(bad == 0, "grant-table", f.String(), "grants-more", f.Pos(), "table")
+	}
+	got := map[string]bool{}
+	for _, k := range r.Violations() {
+		got[k] = true
+	}
+	want := []string{
+		"must-sync:fx.badWriteNoSync:Sync",
+		"errors-used:fx.badWriteDropsError:os.File.Write",
+		"errors-used:fx.badWriteDropsError:os.File.Sync",
+		"guarded-by:fx.box.badGet:box.n:read",
+		"guarded-by:fx.box.badWriteUnderReadLock:box.n:write",
+		"guarded-by:fx.box.badAfterUnlock:box.n:read",
+		"recheck:fx.box.badGetOrCreate:m:insert-without-recheck",
+		"sibling-uniformity:fx.StringArr.Trim:differs-from-FloatArr.Trim",
+		"parallel-array-lockstep:fx.StringArr.Trim:twin-mismatch",
+		"grant-table:fx.matchBad:grants-more",
+	}
+	ok := true
+	for _, w := range want {
+		if !got[w] {
+			fmt.Println("selftest: engine did NOT report the positive example", w)
+			ok = false
+		}
+		delete(got, w)
+	}
+	var extra []string
+	for k := range got {
+		extra = append(extra, k)
+	}
+	sort.Strings(extra)
+	for _, k := range extra {
+		fmt.Println("selftest: unexpected report on a negative example:", k)
+		ok = false
+	}
+	os.Unsetenv("VERIF_REPO")
+	if !ok {
+		fmt.Println("selftest: FAILED (all reports:", strings.Join(r.Violations(), " ; "), ")")
+		return 1
+	}
+	fmt.Printf("selftest: ok (%d positive examples reported, no report on the negative ones)\n", len(want))
 	return 0
 }
